@@ -47,7 +47,7 @@ Class(o, task) == ":newer-source=" \o Newer(o) \o ":generates=" \o (IF ~cfg.gen 
             \o (IF cfg.collide /\ ok[IF task = "t" THEN "u" ELSE "t"].how # "none" THEN ":colliding-names" ELSE "")
 
 ReadOnly == {"dry", "status", "list", "listjson", "summary", "drydir", "dryfailpre", "dryforce"}
-RunModes == {"run", "other", "fail1", "fail2", "failpre", "depfail1", "cancelsib", "prompt", "kill1", "kill2"}
+RunModes == {"run", "other", "fail1", "fail2", "failpre", "depfail1", "retryfail1", "cancelsib", "prompt", "kill1", "kill2"}
 
 WorldInit ==
   /\ files = [f \in Files |-> [c |-> IF f = "b" THEN 0 ELSE 1, m |-> 1]]
@@ -124,7 +124,7 @@ Invocation(mode, obs) ==
   /\ ok' = IF mode \in ReadOnly \/ (SkippedIn(mode, obs) /\ mode \in RunModes) THEN ok
            ELSE [ok EXCEPT ![task] = [valid |-> Succeeded(obs), fp |-> FP, how |-> mode, at |-> clock]]
   \* effect of the body on the world: marker 2 is written after the generated file is touched
-  /\ IF cfg.gen /\ Len(obs.ran) = 2
+  /\ IF cfg.gen /\ (\E i \in 1..Len(obs.ran) : obs.ran[i] = 2)
      THEN gen' = [present |-> TRUE, m |-> clock] ELSE UNCHANGED gen
   /\ clock' = clock + 1
   /\ UNCHANGED <<cfg, files, stat>>
